@@ -149,6 +149,27 @@ CHECKS = {
         note="Trusted: TLC, lib/gen_grammar.py (fixed representatives per character class). Trailing comma and digit-leading names are not compared.",
         technique="TLA+ model (Grammar.tla) checked by TLC; exhaustive replay of bounded comment lines and placements into the real readers",
         design="5/C15"),
+    "C09": dict(
+        text="TLC checks NoAnnNoDiag in the Immutable, Constructor and TestOnly specifications (no annotation record => no diagnostic, for every "
+             "container, statement and nesting). Their un-annotated scenarios, and all-codes programs whose declaring package only mentions the "
+             "keywords (near-miss lines from the inert class of Grammar.tla, commented-out annotated declarations, annotated local types, trailing "
+             "comments), are analysed under four configurations by the real analyzers (sample through the binary and go vet): zero diagnostics. "
+             "The whole standard library is analysed by the instrumented build and every action's End event is validated by CorpusTrace: no "
+             "diagnostic on a package without keyword lines.",
+        note="Trusted: TLC, harness/internal/trace, the keyword scan that establishes the premise per package (conservative).",
+        technique="TLA+ invariants (NoAnnNoDiag) checked by TLC; replay of un-annotated / near-miss programs; trace validation (CorpusTrace.tla) of runs over the standard library",
+        design="5/C09"),
+    "C10": dict(
+        text="TLC checks termination of the walk specifications under fairness and shows the crash state reachable under the LeakWalkState "
+             "deviation. Replay: every 2-declaration program with a package-level initialiser, 'generated code' shapes (//line directives beyond the "
+             "file's end with trailing @ignore, a 70 KB line, generics, malformed and oddly placed annotations), 48 independent packages claiming "
+             "imported interfaces, in process (2 configurations x sequential/parallel) and through the real binary (text/json) and go vet. Annotated "
+             "corpora: clones of standard-library packages with annotations, near-misses and @ignore comments injected at seeded random declarations, "
+             "analysed by the instrumented build under both drivers; CorpusTrace accepts only runs in which every Start has its End without error "
+             "and the driver finishes normally.",
+        note="Trusted: TLC, harness/internal/trace, lib/corpus.py. Interleaving-dependent crashes are retried up to 8 times before being reported; the race-enabled runs live in C11.",
+        technique="TLA+ liveness (Termination) checked by TLC; replay of crash-prone program shapes; trace validation (CorpusTrace.tla) of runs over annotated real-world corpora",
+        design="5/C10"),
 }
 
 NOT_YET = "check not built yet in this session; the property is in scope of the TLA+ specification (see DESIGN.md section 5) and will be claimed when its replay binding is in place"
